@@ -55,6 +55,10 @@ def step (st : St) (line : String) : St × String :=
     match p with
     | some a => (st, s!"ok fee={a.fee} tips={a.tips} gas={a.gas}")
     | none => (st, "err")
+  -- extracted fact about ProposeBlock (go/ast, from /repo's current blockchain.go): after filterTxs, when a candidate
+  -- was dropped, the kept list is re-applied to a clean check state with processTxs (model: `proposeD`, theorem
+  -- `propose_accepted`; without it `propose_as_found_rejected` applies)
+  | ["fact", "propose-rederives-on-clean-state", v] => (st, if v = "yes" then "matches-proposeD" else "matches-proposeDAsFound:VIOLATED")
   | _ => (st, "bad-op")
 
 end IdenaModel.Drv.C02
